@@ -121,32 +121,30 @@ fn ticket_scenario(s: [usize; 3], job_ends: bool) {
     std::mem::forget((t0, t1, t2, a, gone, done_a, done_b));
 }
 
-fn ticket_family(first: usize, job_ends: bool) {
-    split!(4, |b| {
+fn ticket_family(first: usize, job_ends: bool, half: usize) {
+    split!(2, |b| {
         split!(4, |c| {
-            ticket_scenario([first, b, c], job_ends);
+            ticket_scenario([first, 2 * half + b, c], job_ends);
         })
     });
 }
 // Clones 0 and 1 are interchangeable, so the first slot is waiter 0 or waiter 2 (a leading skip
-// is a shorter schedule, covered by a trailing one); one harness per (first slot, what is raised).
-#[kani::proof]
-#[kani::unwind(6)]
-pub fn c07_ticket_clone_first_control_done() {
-    ticket_family(0, false);
+// is a shorter schedule, covered by a trailing one); one harness per (first slot, what is raised,
+// half of the second slot's choices) to spread the 64 schedules over the cores.
+macro_rules! ticket_harness {
+    ($name:ident, $first:expr, $gone:expr, $half:expr) => {
+        #[kani::proof]
+        #[kani::unwind(6)]
+        pub fn $name() {
+            ticket_family($first, $gone, $half);
+        }
+    };
 }
-#[kani::proof]
-#[kani::unwind(6)]
-pub fn c07_ticket_clone_first_job_gone() {
-    ticket_family(0, true);
-}
-#[kani::proof]
-#[kani::unwind(6)]
-pub fn c07_ticket_other_first_control_done() {
-    ticket_family(2, false);
-}
-#[kani::proof]
-#[kani::unwind(6)]
-pub fn c07_ticket_other_first_job_gone() {
-    ticket_family(2, true);
-}
+ticket_harness!(c07_ticket_clone_first_control_done_a, 0, false, 0);
+ticket_harness!(c07_ticket_clone_first_control_done_b, 0, false, 1);
+ticket_harness!(c07_ticket_clone_first_job_gone_a, 0, true, 0);
+ticket_harness!(c07_ticket_clone_first_job_gone_b, 0, true, 1);
+ticket_harness!(c07_ticket_other_first_control_done_a, 2, false, 0);
+ticket_harness!(c07_ticket_other_first_control_done_b, 2, false, 1);
+ticket_harness!(c07_ticket_other_first_job_gone_a, 2, true, 0);
+ticket_harness!(c07_ticket_other_first_job_gone_b, 2, true, 1);
